@@ -329,7 +329,11 @@ class PoolHarness(object):
         ns = instrumented_queue()
         ns.Queue.hook = self.on_get
         tp.queue = ns
-        self.pool = tp.ThreadPool(self.max, self.min, queue_size=self.qsize)
+        if isinstance(self.qsize, tuple):
+            # (queue size, queue timeout): the fourth constructor argument (None = workers poll without a timeout)
+            self.pool = tp.ThreadPool(self.max, self.min, queue_size=self.qsize[0], timeout=self.qsize[1])
+        else:
+            self.pool = tp.ThreadPool(self.max, self.min, queue_size=self.qsize)
         for op in self.program:
             self.do(op, "c")
         # epilogue: open every gate so that nothing stays blocked because of the program itself
@@ -553,6 +557,26 @@ SCALE = ["S1-twelve-tasks", "S2-ten-prequeued", "S3-four-restarts", "S4-two-subm
 # (pool size, deepest ladder level): with more than 3 workers even the preemption-free level (free choices when a thread blocks) has
 # 10^5 schedules for these programs, so larger pools appear only in the 4-chain program
 SCALE_SIZES = {"quick": [((1, 0), 1), ((2, 1), 1), ((3, 1), 0)], "thorough": [((1, 0), 3), ((1, 1), 3), ((2, 0), 2), ((2, 1), 2), ((3, 0), 1), ((3, 1), 1), ((3, 3), 1)]}
+
+
+def options_h(tier):
+    """Pools built with the less common constructor options: bounded queue smaller than the number of idle workers, short and long polling timeouts."""
+    progs = {
+        "T1-start-stop": [("start",), ("stop",)],
+        "T2-task-then-stop": [("start",), ("enq", "ret"), ("result", "c0", BIG), ("stop",)],
+        "T3-stop-restart-task": [("start",), ("stop",), ("start",), ("enq", "ret"), ("result", "c0", BIG), ("stop",)],
+        "T4-two-tasks-join-stop": [("start",), ("enq", "ret"), ("enq", "raise"), ("join", None), ("stop",)],
+    }
+    out = []
+    for name, prog in progs.items():
+        for size in ((2, 2), (3, 3), (3, 1)) if tier == "quick" else ((1, 1), (2, 2), (3, 3), (3, 1), (4, 4)):
+            # (the queue timeout is a number of seconds: timeout=None is not a documented value - with it and a bounded queue the
+            # unchanged library deadlocks in stop()/enqueue(), which block in put() while holding the pool lock; see DESIGN section 8)
+            for q in ((1, 60), (2, 60), (1, 0.5), (0, 0.5), (0, 3600)):
+                if name in ("T2-task-then-stop", "T3-stop-restart-task", "T4-two-tasks-join-stop") and tier == "quick" and q not in ((1, 60), (0, 0.5)):
+                    continue
+                out.append((spec(size, q, prog, None, "sync"), "%s/%d.%d/q%s-t%s/sync" % (name, size[0], size[1], q[0], q[1]), 2))
+    return out
 
 
 def scale_h(tier, names=None):
